@@ -2,12 +2,12 @@
 package props
 
 import (
-	"slices"
 	"cmp"
 	"context"
 	"fmt"
 	"io"
 	"net/http"
+	"slices"
 	"strings"
 
 	"cuelabs.dev/go/oci/ociregistry"
